@@ -660,9 +660,16 @@ def l22(led, rid, ctx):
     is dominated *now* is still needed for the nogood learned from the reason to hold elsewhere"""
     lib = ctx.lib
     n = 0
-    for f in lib.fns.values():
-        if "/tests" in f.file or not ("/propagators/arithmetic" in f.file or f.file.endswith("/propagators/element.rs")):
+    from ..inline import view
+    for f0 in lib.fns.values():
+        if "/tests" in f0.file or not ("/propagators/arithmetic" in f0.file or f0.file.endswith("/propagators/element.rs")):
             continue
+        if f0.kind == "Closure":
+            f = f0
+        else:
+            # a reason built by a private helper of the propagator is judged where it is used
+            f = view(lib, f0, want=lambda g: g.file == f0.file and g.kind != "Closure" and g.vis != "pub"
+                     and g.impl_trait is None and len(g.blocks) <= 60)
         R = None
         for c in f.calls:
             if c.name not in ("set_upper_bound", "set_lower_bound", "remove", "assign_literal", "post_predicate", "post") \
